@@ -2,6 +2,7 @@ package props
 
 import (
 	"fmt"
+	"math"
 	"strings"
 
 	"github.com/vedadiyan/genql"
@@ -54,7 +55,7 @@ func (p *c16) ID() string { return "C16" }
 
 func (p *c16) Init(tier string) {
 	p.tier = tier
-	p.alpha = []string{"a", "'", "\\", "\"", "`", "-", "#", "/", "*", ";", " ", "\x00", "\n", "%", "$", "1", "é"}
+	p.alpha = []string{"a", "'", "\\", "\"", "`", "-", "#", "/", "*", ";", " ", "\x00", "\n", "%", "$", "1", "é", "\xe9"}
 	p.maxLen = 3
 	if tier == "thorough" {
 		p.maxLen = 4
@@ -266,7 +267,10 @@ func (p *c16) checkOther(r *core.CaseResult, t *c16tmpl) {
 	if t.kind != "echo" && t.kind != "where" {
 		return
 	}
-	vals := []any{int64(0), int64(1), int64(-1), int64(42), int64(1) << 53, -(int64(1) << 53), 0.0, 1.5, -0.25, 1e6, 123456.75, true, false, nil}
+	vals := []any{int64(0), int64(1), int64(-1), int64(42), int64(1) << 53, -(int64(1) << 53), 0.0, 1.5, -0.25, 1e6, 123456.75, true, false, nil,
+		// doubles beyond the int64 range, tiny ones, negative zero; the ends of the int64 range
+		9223372036854775808.0, -9223372036854775808.0, 1e19, -1e19, 1e21, 1.5e300, math.MaxFloat64, 1e-7, -2.5e-10, 5e-324, math.Copysign(0, -1),
+		int64(math.MaxInt64), int64(math.MinInt64)}
 	for _, v := range vals {
 		sig := func(mode string) string { return fmt.Sprintf("C16|%s|%T|%s", t.name, v, mode) }
 		cs := map[string]any{"template": t.sql, "args": []any{v}}
@@ -458,7 +462,7 @@ func (p *c16) checkSequences(r *core.CaseResult) {
 
 func (p *c16) Meta() core.Meta {
 	return core.Meta{
-		Rule:        "string arguments: for each of 6 templates (echo, WHERE =, WHERE = AND, IN list with 2 placeholders, two select items, function arguments) every string of length 1..3 (thorough 4) over the 17-character alphabet {a ' \\ \" ` - # / * ; space NUL newline % $ 1 é} plus classic injection payloads: sanitized text must parse, have the template's statement shape with one string literal per placeholder whose value is the argument, and return through Exec exactly the rows a literal comparison selects; int64/float64/bool/NULL boundary values echo; 8 quoted contexts ($1 inside '...', '...''...', '...\\'...', \"...\", `...`, --, #, /* */) leave the quoted $1 alone; missing / unused / $0 / overflow / unsupported-type arguments are errors, not panics; every rejected call followed by every accepted call leaves the accepted call's output unchanged (5 x 5 sequences, 3 rounds). non-trivial = the argument contains a character that is special in the dialect",
+		Rule:        "string arguments: for each of 6 templates (echo, WHERE =, WHERE = AND, IN list with 2 placeholders, two select items, function arguments) every string of length 1..3 (thorough 4) over the 18-symbol alphabet {a ' \\ \" ` - # / * ; space NUL newline % $ 1 é and the lone byte 0xE9 (ill-formed UTF-8)} plus classic injection payloads: sanitized text must parse, have the template's statement shape with one string literal per placeholder whose value is the argument, and return through Exec exactly the rows a literal comparison selects; int64/float64/bool/NULL boundary values echo; 8 quoted contexts ($1 inside '...', '...''...', '...\\'...', \"...\", `...`, --, #, /* */) leave the quoted $1 alone; missing / unused / $0 / overflow / unsupported-type arguments are errors, not panics; every rejected call followed by every accepted call leaves the accepted call's output unchanged (5 x 5 sequences, 3 rounds). non-trivial = the argument contains a character that is special in the dialect",
 		Assumptions: []string{"the dialect is the one genql.Parse accepts (MySQL: backslash escapes in string literals, backtick identifiers, double-quoted strings, # and -- comments)", "statement shape = sqlparser.String of the statement with every literal masked"},
 		Bounds:      map[string]any{"alphabet": len(p.alpha), "max_len": p.maxLen, "templates": len(c16Templates), "quoted_contexts": len(c16Quoted)},
 		Exhaustive:  true,
